@@ -21,8 +21,11 @@
     initial state (`init` / `initNoLimit`); no action changes it.  (rig b: the context handed to
     `Shutdown(ctx)` by the caller.)
   * a successful CONNECT is answered with the fixed bytes `HTTP/1.1 200 OK\r\n\r\n`
-    (`writeConnectOKResponse`): the `Connection: close` that `writeResponse` adds to the header
-    map while closing is never written, and `res.Close` makes `tunnel` return before any copy.
+    (`writeConnectOKResponse`), which carry no `Connection` field, and keeps its connection
+    (`writeResponse`: `res.Close = false` for the 2xx of a CONNECT, closing or not): `tunnel` goes on
+    to copy.  The tunnel runs inside `handleLoop`, so the connection stays in `conns` and counted by
+    `connsWg`: `Shutdown` waits for it, `Close` closes its socket.  It ends when the client leaves,
+    when the target ends its side, or when the socket is closed under it.
 -/
 namespace FwdVerif
 namespace C11
@@ -103,6 +106,7 @@ structure Conn where
   fwdUnseen : Nat := 0          -- requests that reached the origin and that the harness has not yet noticed there
   originEnded : Bool := false   -- the origin closed its side (ends a tunnel)
   unseen : List Bool := []      -- responses written in full (their `Connection: close` flag), not yet seen by the client
+  relayUnseen : Nat := 0        -- round trips relayed through the tunnel (client → target → client) that the client has not yet noticed
   -- ghost fields (never read by a guard)
   regClosing : Bool := false    -- value of `closing` when the counter was incremented for this connection
   readClosing : Bool := false   -- value of `closing` when the read of the current request completed
@@ -153,7 +157,7 @@ inductive Eff where
 inductive CAct where
   | lockReq | lockAcq | insert | counterAdd | unlockReg | check0
   | tlsDone | tlsFail | firstByte | idleFail | readDone | readFail | check
-  | forward | respReady | writeHead | writeHeadFail | writeDone | writeFail | tunnelEnd
+  | forward | respReady | writeHead | writeHeadFail | writeDone | writeFail | relay | tunnelEnd
   | sockClose | counterDec | lockAcqU | delete | unlockU
   deriving DecidableEq, Repr, Inhabited, Hashable
 
@@ -210,8 +214,9 @@ def cstep (closing lockFree : Bool) (x : Conn) : CAct → Option (Conn × Eff)
   | .writeHead =>
     if x.pc = .writeResponse ∧ x.sockClosed = false then
       if x.cur.connect then
-        -- fixed bytes, no `Connection` field; `res.Close` (closing) makes `tunnel` return errClose
-        some ({ x with pc := if closing then .deferredClose else .tunnel, respClosing := closing,
+        -- fixed bytes, no `Connection` field; a successful CONNECT keeps its connection, closing or
+        -- not (`res.Close = false`): `tunnel` goes on to `bicopy`
+        some ({ x with pc := .tunnel, respClosing := closing,
                        lastClose := false, unseen := x.unseen ++ [false] }, .none)
       else
         some ({ x with pc := .writing, respClosing := closing, lastClose := closing || x.cur.close }, .none)
@@ -227,6 +232,10 @@ def cstep (closing lockFree : Bool) (x : Conn) : CAct → Option (Conn × Eff)
   | .writeFail =>
     if x.pc = .writing ∧ (x.sockClosed = true ∨ x.clientGone = true) then
       some ({ x with pc := .deferredClose }, .none) else none
+  | .relay =>
+    -- `bicopy`: bytes of the client reach the target and the target's bytes reach the client
+    if x.pc = .tunnel ∧ x.sockClosed = false then
+      some ({ x with relayUnseen := x.relayUnseen + 1 }, .none) else none
   | .tunnelEnd =>
     if x.pc = .tunnel ∧ (x.sockClosed = true ∨ x.clientGone = true ∨ x.originEnded = true) then
       some ({ x with pc := .deferredClose }, .none) else none
@@ -277,6 +286,7 @@ inductive Action where
   | originAnswer (c : ConnId)
   | originEnd (c : ConnId)
   | respSeen (c : ConnId) (cl : Bool)
+  | echoSeen (c : ConnId)
   | closedSeen (c : ConnId)
   -- callers of the API
   | listenerClose | shutdownCall | shutdownRet (isNil : Bool) | closeCall | closeRet | ctxExpire
@@ -342,6 +352,10 @@ def step (s : State) : Action → Option State
     match (s.conns c).unseen with
     | f :: rest => if f = cl then some (setConn s c { s.conns c with unseen := rest }) else none
     | [] => none
+  | .echoSeen c =>
+    -- the client got back through the tunnel what it had sent into it
+    if (s.conns c).relayUnseen ≠ 0 then
+      some (setConn s c { s.conns c with relayUnseen := (s.conns c).relayUnseen - 1 }) else none
   | .closedSeen c =>
     if (s.conns c).sockClosed = true ∨ (s.conns c).pc = .reset then some s else none
   | .listenerClose => some (if s.listenerOpen then closeListener s else s)
